@@ -180,6 +180,8 @@ def index_selection(rng, n, kind):
 		idx = [rng.randrange(n) for _ in range(rng.randint(1, n + 3))]
 	elif kind == 'reversed':
 		idx = list(range(n - 1, -1, -1))
+	elif kind == 'negative':
+		idx = [j - n if rng.random() < 0.7 else j for j in rng.sample(range(n), rng.randint(max(n // 2, 1), n))]     # positions counted from the end
 	else:
 		raise ValueError(kind)
 	return idx
@@ -213,7 +215,7 @@ def run_config(ctx, gm, rng, coll, cont_kind, cobj, rarrs, qarrs, E, threads, re
 			if r:
 				ctx.count('repetitions')
 	elif fn == 'matrix':
-		ik = rng.choice(['none', 'perm', 'subset', 'repeats', 'reversed'])
+		ik = rng.choice(['none', 'perm', 'subset', 'repeats', 'reversed', 'negative'])
 		idx = index_selection(rng, n, ik)
 		as_nd = rng.random() < 0.5
 		csz = rng.choice([None, 1, 2, 3, max(n - 1, 1), n or 1, n + 1, n + 2, rng.randint(1, n + 2)])
